@@ -2478,6 +2478,7 @@ func (e *executor) remoteExec(ctx context.Context, node *Node, index string, q *
 		Remote: true,
 	}
 
+	verifForward(node.ID, index, q, pbreq.Query)
 	pb, err := e.client.QueryNode(ctx, &node.URI, index, pbreq)
 	if err != nil {
 		return nil, err
